@@ -146,7 +146,21 @@ Definition c02_clauses (c : case) (a : atx) : list (N * bool) :=
                                   end
                                 | _, _ => true
                                 end
-                              | _, _, _ => true end) (tx_metadata t)) ].
+                              | _, _, _ => true end) (tx_metadata t));
+    (* every withdrawal directive's amount reaches the body under its own reward account *)
+    (106%N, let o := c_oracles c in
+            forallb (fun d => match data_get "credential" (ad_data d), data_get "amount" (ad_data d) with
+                              | Some cr, Some am =>
+                                match reward_account_of (c_mainnet c) (tab (oc_parse o) None) (tab (oc_of_string o) None) (tab (oc_reward o) None) cr, zden am with
+                                | Ok r, Some z => existsb (fun kv => bool_decide (fst kv = r) && (snd kv =? z)) (from_option id [] (a_withdrawals a))
+                                | _, _ => true
+                                end
+                              | _, _ => true end) (withdrawal_directives t));
+    (* ... and every treasury donation its coin *)
+    (107%N, forallb (fun d => match data_get "coin" (ad_data d) with
+                              | Some e => match zden e with Some z => bool_decide (a_donation a = Some z) | None => true end
+                              | None => true end)
+                    (filter (fun d => bool_decide (ad_name d = "treasury_donation"%string)) (tx_adhoc t))) ].
 
 (** C08: the redeemer map the ledger expects, built from the source by sorting items as the ledger does *)
 Definition first_ref (e : expr) : option (list utxo_ref) :=
